@@ -74,6 +74,8 @@ impl BufferedKeyboard {
     }
     
     fn try_input(&self) -> Option<RwLockWriteGuard<'_, VecDeque<u8>>> {
+        #[cfg(endorpersand_lc3_ensemble_verif)]
+        crate::verif::lock_probe(crate::verif::Device::Keyboard);
         match self.buffer.try_write() {
             Ok(g) => Some(g),
             Err(TryLockError::Poisoned(e)) => Some(e.into_inner()),
